@@ -124,9 +124,27 @@ def _gen_keyed(rng):
             "perm_seeds": [rng.randrange(1 << 30) for _ in range(4)]}
 
 
+def _gen_wild(rng):
+    """parametrised @dependent_check patterns with typing.Any wildcards on one bound (their order among each other is a
+    user-level `<`, asked in whatever direction the sorter happens to compare them)"""
+    from .c10 import _gen_wild as g
+    spec = g(rng)
+    for m in spec["methods"]:
+        m["prio"] = 0
+    spec.pop("wild", None)
+    spec.pop("composite", None)
+    n = len(spec["methods"][0]["pos"][0]["t"]) - 1 if spec["methods"][0]["pos"][0]["t"][0] == "W" else 2
+    spec.update(flavour="wild", perm_seeds=[rng.randrange(1 << 30) for _ in range(4)],
+                extras=[{"mid": 90, "pos": [{"n": f"a{j}", "t": ["W", *["*"] * n] if j == 0 else "object"}
+                                            for j in range(spec["npos"] + 1)], "kw": [], "prio": 0, "kind": "leaf"}])
+    return spec
+
+
 def gen_case(rng, params, idx):
     if idx % 8 == 7:
         return _gen_keyed(rng)
+    if idx % 16 == 5:
+        return _gen_wild(rng)
     if idx % 16 == 3:
         return _gen_tuple_ties(rng)
     if idx % 4 == 3:
@@ -318,6 +336,7 @@ def _asymmetric_pairs(spec, env):
     from graphlib import CycleError, TopologicalSorter
     from ovld.mro import Order, typeorder
     from ovld.types import normalize_type
+    from ovld.dependent import DependentType
     n = 0
     for j in range(spec["npos"] + 1):
         ts = []
@@ -333,7 +352,10 @@ def _asymmetric_pairs(spec, env):
             except Exception:  # noqa: BLE001
                 n += 1
                 continue
-            if o1 is not o2.opposite() and hasattr(a, "__type_order__") and hasattr(b, "__type_order__"):
+            # F8 is two *different* rules disagreeing.  Two dependent types of one class on one bound are compared by one
+            # and the same rule in both directions: an asymmetry there is not F8 and must not be excused by it
+            same_rule = (type(a) is type(b) and isinstance(a, DependentType) and a.bound == b.bound)
+            if o1 is not o2.opposite() and hasattr(a, "__type_order__") and hasattr(b, "__type_order__") and not same_rule:
                 n += 1          # not mirror-symmetric, and both operands carry their own ordering rule (F8's mechanism)
             if o1 is Order.LESS:
                 deps[k].add(i)
